@@ -18,6 +18,7 @@
  Rp presence      : optional numeric fields are tested with `is None` / membership, never by truthiness (0 is a value).
  R4 no reset      : no function of elements.py / science_utils.py builds a spectrum anew (factories are for launch and design
                     only): accumulated ASE / NLI cannot be dropped inside an element.
+ R5 NLI spreading : between the per-cut sums and add_nli only sign-preserving operations (numpy.interp clamps; no extrapolation).
 """
 import ast
 
@@ -27,7 +28,7 @@ from ..poly import Rat, C, mk_atom, subst, REG, fn
 from ..vg import Evaluator, vkey, atoms_of
 from ..domains import sign, POS, NONNEG, ZERO, UNK, NEG, NONPOS
 from ..model import CannotAnalyse
-from .common import site, key, all_attr_stores, calls_to
+from .common import site, key, all_attr_stores, calls_to, enclosing
 
 EL = 'gnpy.core.elements'
 GAIN = {'apply_gain_db', 'apply_gain_lin'}
@@ -304,6 +305,53 @@ def r3b_raman_ase(ctx):
 
 
 
+def r5_nli_interp(ctx):
+    """R5: where the NLI is computed on a subset of channels and spread to the others, the spreading keeps the sign: it is
+    numpy.interp (piecewise linear, clamped at the ends: every value is a convex combination of computed ones).  An
+    extrapolating interpolation can hand a NEGATIVE NLI to the outer channels, which add_nli would turn into an SNR_NLI
+    that improves through a fibre.  Every operation between the per-cut sum and the value given to add_nli is from the
+    sign-preserving set."""
+    from ..dataflow import local_defs
+    repo = ctx.repo
+    ns = repo.cls('NliSolver', 'gnpy.core.science_utils')
+    f = repo.method(ns, 'compute_nli')
+    KEEP = {'sum', 'interp', 'outer', 'ones', 'maximum', 'clip', 'abs', 'full', 'array', 'asarray', 'zeros', 'len', 'round', 'range'}
+    rets = [n for n in walk_no_nested(f.node) if isinstance(n, ast.Return) and isinstance(n.value, ast.Name)]
+    if len(rets) != 1:
+        raise CannotAnalyse('compute_nli: single named result expected')
+    res = rets[0].value.id
+    n = 0
+    for st in [x for x in walk_no_nested(f.node) if isinstance(x, ast.Assign) and isinstance(x.targets[0], ast.Name) and x.targets[0].id == res]:
+        # the chain of local definitions feeding this assignment, inside the same branch
+        branch = enclosing(st, ast.If)
+        scope = list(ast.walk(branch)) if branch is not None else list(ast.walk(f.node))
+        names, work = set(), [st.value]
+        chain = [st]
+        while work:
+            e = work.pop()
+            for x in ast.walk(e):
+                if isinstance(x, ast.Name) and x.id not in names:
+                    names.add(x.id)
+                    for d in scope:
+                        if isinstance(d, ast.Assign) and isinstance(d.targets[0], ast.Name) and d.targets[0].id == x.id and d.lineno <= st.lineno:
+                            chain.append(d)
+                            work.append(d.value)
+        for d in chain:
+            for c in ast.walk(d.value):
+                if isinstance(c, ast.Call):
+                    nm = c.func.id if isinstance(c.func, ast.Name) else (c.func.attr if isinstance(c.func, ast.Attribute) else None)
+                    if isinstance(c.func, ast.Call):
+                        nm = ast.unparse(c.func.func) + '(..)(..)'
+                    if isinstance(c.func, ast.Attribute) and ast.unparse(c.func.value).startswith('NliSolver'):
+                        continue            # the eta kernels (sign: R3 for the analytic model; not decided for the GGN integrals)
+                    n += 1
+                    ctx.check('R5.nli-interp', f'{site(f, c)} {nm}', nm in KEEP, key(f, f'nli-op|{nm}'),
+                              f'{nm}(..) takes part in spreading the NLI over the channels; it is not in the sign-preserving set '
+                              f'({", ".join(sorted(KEEP))}): an extrapolated / fitted value can be negative and improve SNR_NLI through a fibre',
+                              ast.unparse(c)[:120])
+    ctx.need('R5.nli-interp', 6)
+
+
 def r4_no_reset(ctx):
     """R4: noise accumulated upstream is never dropped inside an element: the elements (and the physics they call) never build
     a spectrum anew - only request.propagate (launch) and the design code (reference comb) call the spectral-information
@@ -335,4 +383,4 @@ from ..presence import rule_for as _presence_rule
 
 RULES_PRESENCE = ('Rp.presence', _presence_rule('C02', 'a legal zero would be read as missing'))
 
-RULES = [('R3.raman-ase', r3b_raman_ase), ('R1.effects', r1_effects), ('R2.identities', r2_identities), ('R3.sign', r3_sign), RULES_MEMO, RULES_PRESENCE, ('R4.no-reset', r4_no_reset)]
+RULES = [('R3.raman-ase', r3b_raman_ase), ('R1.effects', r1_effects), ('R2.identities', r2_identities), ('R3.sign', r3_sign), RULES_MEMO, RULES_PRESENCE, ('R4.no-reset', r4_no_reset), ('R5.nli-interp', r5_nli_interp)]
